@@ -1385,3 +1385,39 @@ def rule_fill_mode_cleared_unconditionally(ctx):
         ctx.violated("FILLMODE", "FILLMODE:ncsetfill", "-", "no statement clears NC_NOFILL")
     ctx.floor("FILLMODE", 1, n, "(statements that clear NC_NOFILL)")
     return n
+
+
+def rule_hash_match_confirmed(ctx):
+    """HASHCONFIRM (C10): when the SD header is written, dimensions with the same name are stored once; candidates are found
+    with a cheap hash of the name (a sum of 4-byte words) plus the size, and the decision "this is the same dimension" is
+    confirmed by comparing the names themselves (NC_compare_string).  A condition that compares two hashes and marks a
+    duplicate without a string comparison treats "lat_lon_" and "lon_lat_" as one dimension: the second is never written and
+    the file cannot be opened again."""
+    from .codec import ast_walk
+    from .facts import calls_in
+    prog = ctx.prog
+    n = 0
+    for f in prog.lib_funcs():
+        ast = f.raw.get("ast")
+        if not ast or not f.rel.startswith("mfhdf/src/"):
+            continue
+        found = []
+
+        def vis(nd, st):
+            if nd[0] == "if" and nd[1] is not None:
+                hs = [x for x in walk(nd[1], True) if x[0] == "bin" and x[1] == "==" and any(y[0] == "var" and "hash" in y[1].lower() for y in walk(x[2], True)) and any(y[0] == "var" and "hash" in y[1].lower() for y in walk(x[3], True))]
+                if hs:
+                    found.append(nd)
+            return True
+
+        ast_walk(ast, vis)
+        for k, nd in enumerate(found, 1):
+            n += 1
+            key = "HASHCONFIRM:%s#%d" % (f.name, k)
+            line = nd[-3] if isinstance(nd[-3], int) else f.line
+            if any(c[1] in ("NC_compare_string", "H4_NC_compare_string", "strcmp", "strncmp", "memcmp") for c in calls_in(nd[1], True)):
+                ctx.holds("HASHCONFIRM", key, f.where(line), "the hash match is confirmed by comparing the names", nontrivial=True)
+            else:
+                ctx.violated("HASHCONFIRM", key, f.where(line), "two name hashes are compared and the match is acted on without comparing the names: names whose 4-byte words add up alike are taken for one dimension")
+    ctx.floor("HASHCONFIRM", 1, n, "(decisions taken on equal name hashes)")
+    return n
